@@ -71,6 +71,8 @@ def run(ctx):
                     expect_violation="TransparentA")
     ctx.model_check("MCCacheLayer", MC_CFG % dict(key="MCFields", inv="FALSE", serve="FALSE", steps=3, extra=""), name="MCCacheLayer-defect-update",
                     expect_violation=("NoEntryOutlivesUpdate", "TransparentA"))
+    # transparency for ANY queries / option fields / database versions (TLAPS), under the two conforming switches
+    ctx.tlaps("CacheLayerProof")
     dump = os.path.join(ctx.work, "cache-dump.ndjson")
     r2 = ctx.tlc("MCCacheLayer", MC_CFG % dict(key="MCFields", inv="TRUE", serve="FALSE", steps=3 if q else 4, extra="ACTION_CONSTRAINT DumpT"),
                  name="MCCacheLayer-dump", env={"DUMPFILE": dump})
